@@ -2,6 +2,7 @@ import AslModel.Stream
 import AslProps.C16Spec
 import AslProofs.Stream
 import AslProofs.StreamSpec
+import AslProofs.StreamFrag
 /-!
 # C16 — endian-aware binary streams write canonical bytes and read them back
 
@@ -715,5 +716,64 @@ example : putArrayMem .sock .big .i16 [0x0102, 0x8000] = ([1, 2, 0x80, 0], [2, 1
 example : readAll .sb .little (writeAll .sb .little [.scalar .i16 0x0102, .array .i16 [3, 4], .setEndian .big, .bytes [9, 9, 9], .scalar .u16 0x0506]).2
       (([WOp.scalar .i16 0x0102, .array .i16 [3, 4], .setEndian .big, .bytes [9, 9, 9], .scalar .u16 0x0506].zip [false, true, false, true, false]).flatMap mirrorS) =
     (.big, [.val .i16 0x0102, .none, .none, .none, .val .u16 0x0506], []) := by decide
+
+/-! ## a Socket whose bytes arrive in pieces (the receive loop of `Socket_::read(void*, int)`)
+
+`readAllFrag` is `readAll .sock` with every `read(p, n)` going through `sockRecvLoop` over the pending pieces — what
+the driver runs after `readerf`. `Live ps`: every piece holds at least one byte. -/
+
+/-- one `Socket_::read(p, n)`: the first `n` bytes of the stream whatever the pieces, the rest stays pending -/
+theorem socket_recv_loop_spec (ps : List (List UInt8)) (h : AslProofs.StreamFrag.Live ps) (n : Nat) :
+    (sockRead n ps).1 = ps.flatten.take n ∧ (sockRead n ps).2.flatten = ps.flatten.drop n :=
+  ⟨(AslProofs.StreamFrag.sockRead_spec ps h n).1, (AslProofs.StreamFrag.sockRead_spec ps h n).2.1⟩
+
+/-- a whole read history on a Socket fed in pieces = the history on the concatenation (order switches anywhere, arrays,
+    raw bytes, skips): same final order, same values, same bytes left -/
+theorem socket_read_frag_eq_flat (ops : List ROp) (e : Endian) (ps : List (List UInt8))
+    (h : AslProofs.StreamFrag.Live ps) :
+    (readAllFrag e ps ops).1 = (readAll .sock e ps.flatten ops).1 ∧
+    (readAllFrag e ps ops).2.1 = (readAll .sock e ps.flatten ops).2.1 ∧
+    (readAllFrag e ps ops).2.2.flatten = (readAll .sock e ps.flatten ops).2.2 := by
+  obtain ⟨a, b, c, _⟩ := AslProofs.StreamFrag.readAllFrag_spec ops e ps h
+  exact ⟨a, b, c⟩
+
+/-- what a Socket reads does not depend on how the bytes are fragmented: two partitions of the same stream give the
+    same values, the same final byte order and the same unread bytes -/
+theorem socket_read_fragment_independent (ops : List ROp) (e : Endian) (ps qs : List (List UInt8))
+    (hp : AslProofs.StreamFrag.Live ps) (hq : AslProofs.StreamFrag.Live qs) (heq : ps.flatten = qs.flatten) :
+    (readAllFrag e ps ops).1 = (readAllFrag e qs ops).1 ∧
+    (readAllFrag e ps ops).2.1 = (readAllFrag e qs ops).2.1 ∧
+    (readAllFrag e ps ops).2.2.flatten = (readAllFrag e qs ops).2.2.flatten := by
+  obtain ⟨a, b, c⟩ := socket_read_frag_eq_flat ops e ps hp
+  obtain ⟨a', b', c'⟩ := socket_read_frag_eq_flat ops e qs hq
+  rw [heq] at a b c
+  exact ⟨a.trans a'.symm, b.trans b'.symm, c.trans c'.symm⟩
+
+/-- op `readerf`: the stream cut at ANY list of offsets is a live partition of it, so the history reads what `reader`
+    reads -/
+theorem socket_read_any_cuts (ops : List ROp) (e : Endian) (cuts : List Nat) (bs : List UInt8) :
+    (readAllFrag e (cutPieces cuts bs) ops).2.1 = (readAll .sock e bs ops).2.1 ∧
+    (readAllFrag e (cutPieces cuts bs) ops).2.2.flatten = (readAll .sock e bs ops).2.2 := by
+  obtain ⟨hf, hl⟩ := AslProofs.StreamFrag.cutPieces_spec cuts bs
+  obtain ⟨_, b, c⟩ := socket_read_frag_eq_flat ops e _ hl
+  rw [hf] at b c
+  exact ⟨b, c⟩
+
+/-- read back over pieces: a written history, delivered to the reading Socket cut at any offsets, returns the original
+    values (`read_back` through `socket_read_any_cuts`) -/
+theorem socket_read_back_any_cuts (e : Endian) (ops : List WOp) (cuts : List Nat) (hwf : ∀ op ∈ ops, WF .sock op) :
+    (readAllFrag e (cutPieces cuts (writeAll .sock e ops).2) (ops.flatMap mirror)).2.1 = ops.flatMap expected := by
+  have h := read_back .sock e ops [] hwf
+  rw [List.append_nil] at h
+  rw [(socket_read_any_cuts _ e cuts _).1, h]
+
+/-- non-vacuity: a big-endian short and int cut inside both values (three `recv` calls for the int) -/
+example : cutPieces [1, 3, 5] [1, 2, 3, 4, 5, 6] = [[1], [2, 3], [4, 5], [6]] ∧
+    AslProofs.StreamFrag.Live (cutPieces [1, 3, 5] [1, 2, 3, 4, 5, 6]) ∧
+    readAllFrag .big [[1], [2, 3], [4, 5], [6]] [.scalar .u16, .scalar .i32] =
+      (.big, [.val .u16 0x0102, .val .i32 0x03040506], []) ∧
+    readAllFrag .big [[1, 2, 3, 4, 5], [6]] [.scalar .u16, .scalar .i32] =
+      (.big, [.val .u16 0x0102, .val .i32 0x03040506], []) := by
+  refine ⟨by decide, (AslProofs.StreamFrag.cutPieces_spec _ _).2, by decide, by decide⟩
 
 end C16
